@@ -114,7 +114,9 @@ class C13Oracle(worldprop.Oracle):
         for di, d in enumerate(self.im.docs):
             before_all = [observable_doc(x) for x in self.im.docs]
             first = {}
-            for name in order + order[:5]:
+            # every text export once before and once after all the others, whatever the rotation
+            bracket = ["json", "json-indent", "xml", "xml-force", "get_provn"]
+            for name in bracket + order + order[:5] + bracket:
                 try:
                     out = exps[name](d)
                 except Exception as e:
